@@ -32,12 +32,14 @@ def nodeOkB (g : Grammar) (nd : Node) : Bool :=
     | some nd' => nd'.kind == .notAt c
     | none => false
   | .ifMust _ _ mn => mustLikeB g mn
+  | .ifApply _ acts => acts.all RuleAct.plain
+  | .applyR acts => acts.all RuleAct.plain
   | _ => true
 
 /-- All conditions of `WFT`, computably. -/
 def wftCheck (cx : Ctx) : Bool :=
   cx.g.toList.all (fun nd => nodeOkB cx.g nd && plainB nd.act) &&
-  cx.fams.toList.all (fun row => row.toList.all plainB)
+  cx.fams.toList.all (fun row => row.toList.all plainB) && cx.msgs.isEmpty
 
 theorem plainB_sound {s : ActionSpec} (h : plainB s = true) : PlainAct s := by
   simp only [plainB, Bool.and_eq_true, beq_iff_eq, Bool.or_eq_true, Bool.not_eq_true'] at h
@@ -76,11 +78,11 @@ theorem getElem?_mem_toList {α} {a : Array α} {i : Nat} {x : α} (h : a[i]? = 
 
 theorem wftCheck_sound {cx : Ctx} (h : wftCheck cx = true) : WFT cx := by
   simp only [wftCheck, Bool.and_eq_true, List.all_eq_true] at h
-  obtain ⟨hnodes, hfams⟩ := h
+  obtain ⟨⟨hnodes, hfams⟩, hmsgs⟩ := h
   have hnode : ∀ (i : Nat) (nd : Node), cx.g[i]? = some nd → nodeOkB cx.g nd = true ∧ plainB nd.act = true := by
     intro i nd hn
     exact hnodes nd (getElem?_mem_toList hn)
-  refine ⟨?_, ?_, ?_, ?_⟩
+  refine ⟨?_, ?_, ?_, ?_, ?_, List.isEmpty_iff.mp hmsgs⟩
   · intro i nd a hn hk
     have := (hnode i nd hn).1
     simpa [nodeOkB, hk] using this
@@ -114,5 +116,10 @@ theorem wftCheck_sound {cx : Ctx} (h : wftCheck cx = true) : WFT cx := by
       cases hrow : cx.fams[env.fam - 1]? with
       | none => right; simp [Array.getD_eq_getD_getElem?, hrow]
       | some row => left; simp only [Array.getD_eq_getD_getElem?, hrow, Option.getD_some]; exact getElem?_mem_toList hrow
+
+  · intro i nd hn
+    have := (hnode i nd hn).1
+    unfold PlainRuleActs
+    cases hk : nd.kind <;> simp only [nodeOkB, hk, List.all_eq_true] at this ⊢ <;> first | exact this | trivial
 
 end Pegtl
